@@ -376,7 +376,7 @@ func (x *Exec) checkFrameArrCond(st *State, hk, arr, lo, hi, cond string, p toke
 		x.fc.assume(st.pc, goal)
 	}
 	for i, lf := range x.loopFrames {
-		if lf.all {
+		if lf.all || lf.whole[hk] {
 			continue
 		}
 		alts := []string{app(">=", arr, lf.alloc)}
